@@ -1257,6 +1257,8 @@ void Logic::dumpHeaderToFile(std::ostream & dump_out) const {
         if (s == getSym_true() || s == getSym_false()) continue;
         if (isConstant(s)) {
             if (isBuiltinConstant(s)) continue;
+            // Abstract values (as @k S) are not symbols a query can declare or mention
+            if (not isKnownToUser(s)) continue;
             dump_out << "(declare-const ";
         }
         // else if (!isUF(s) && !isVar(s)) continue;
